@@ -432,9 +432,26 @@ func c04ClientBookkeeping(c *core.Ctx) {
 		return
 	}
 	reqVal := facts.Resolve(doCall.Call.Args[1])
+	// the request's ContentLength: a load of the field, or the very value assigned to it
+	var lenVals []ssa.Value
+	for _, b := range flush.Blocks {
+		for _, in := range b.Instrs {
+			if st, ok := in.(*ssa.Store); ok {
+				if b0, fld, isF := facts.FieldOf(st.Addr); isF && fld == "ContentLength" && facts.Resolve(b0) == reqVal {
+					lenVals = append(lenVals, facts.Resolve(st.Val))
+				}
+			}
+		}
+	}
 	isReqLen := func(v ssa.Value) bool {
 		b, fld, ok := facts.FieldOf(facts.Resolve(v))
-		return ok && fld == "ContentLength" && facts.Resolve(b) == reqVal
+		if ok && fld == "ContentLength" && facts.Resolve(b) == reqVal {
+			return true
+		}
+		if len(lenVals) == 1 && facts.Resolve(v) == lenVals[0] {
+			return true
+		}
+		return false
 	}
 	isFlushedLoad := func(v ssa.Value) bool {
 		_, fld, ok := facts.FieldOf(facts.Resolve(v))
